@@ -77,6 +77,17 @@ let stmt st toks =
        | (m1, DOk r) -> push st (m1, r) (PDeriv (pa, x))
        | (m1, DErr e) -> ignore (push st (m1, a) pa); "ERR " ^ (match e with BadClassId -> "BadClassId" | AmbiguousCharSet -> "AmbiguousCharSet"))
   | "dump" -> dump (fst (term st c))
+  | "subterms" -> let (a, _) = term st c in
+      (* a fixed fuel: whatever sub_terms_fuel returns is what sub_terms returns (C07c_sub_terms_fuel_some) *)
+      let l = get (sub_terms_fuel fuel a) in
+      Printf.sprintf "%d %s" (List.length l) (String.concat "," (List.map (fun r -> sn (rid r)) l))
+  | "leaves" -> let (a, _) = term st c in
+      let l = get (leaves_fuel fuel a) in
+      Printf.sprintf "%d %s" (List.length l) (String.concat "," (List.map (fun r -> sn (rid r)) l))
+  | "reinfo" -> let (a, _) = term st c in let k = ci c in
+      let cids = List.init k (fun _ -> cid_of (next c)) in
+      Printf.sprintf "empty=%s n=%d valid=%s" (b (re_is_empty a)) (int_of_nat (re_num_deriv_classes a))
+        (String.concat "" (List.map (fun x -> b (re_valid_class_id a x)) cids))
   | "nullable" -> b (rnul (fst (term st c)))
   | "mem" -> let (a, _) = term st c in let w = cword c in
       let (m1, r) = get (str_in_re st.m w a) in st.m <- m1; b r
@@ -284,6 +295,10 @@ let oracle toks impl model =
               model is proved to return it: any other answer violates the property *)
            if r <> mr && mr <> "PANIC" then
              bad i s ("result [" ^ r ^ "] is not the SMT-LIB value [" ^ mr ^ "] (leftmost, then shortest match)")
+       | "subterms" | "leaves" | "reinfo" ->
+           (* determined by the term (whose structure and ids are compared by every constructor
+              statement): sub-terms each once in breadth-first order, the atomic ones, the class ids *)
+           if r <> mr && mr <> "PANIC" then bad i s ("result [" ^ r ^ "] but the term's structure gives [" ^ mr ^ "]")
        | "same" -> if r <> "T T" then bad i s ("the same construction gave a different term: " ^ r)
        | "differ" -> if r <> "F F" then bad i s ("terms that must differ compare equal: " ^ r)
        | "closure" -> if r <> "T" then bad i s ("the yielded set is not closed under char_derivative: " ^ r)
